@@ -1786,20 +1786,26 @@ func suiteEngineSummaries(c *Ctx) {
 		}
 		// the same scenario, under the same name, POSTed again with a TIGHTER limit; the summary is not posted again: labels
 		// pooled before and labels first asked for now must both be judged by the limit in force (seed C03m)
-		tighter := math.Round((asIsVal+(limit-asIsVal)*(0.1+0.4*g.r.Float()))*1000) / 1000
-		if vi >= 4 {
-			tighter = math.Round(tighter)
-		}
-		if tighter > asIsVal && tighter < limit {
+		prev := limit
+		for _, frac := range []float64{0.55 + 0.3*g.r.Float(), 0.1 + 0.3*g.r.Float()} { // twice: tighter, then tighter still
+			tighter := math.Round((asIsVal+(limit-asIsVal)*frac)*1000) / 1000
+			if vi >= 4 {
+				tighter = math.Round(tighter)
+			}
+			if !(tighter > asIsVal && tighter < prev) {
+				continue
+			}
 			half := len(s.rows) / 2
-			if in.do("relimit "+floatBits(tighter)+strings.TrimPrefix(g.scenarioLineOf("rescenario"), "rescenario")) == "ok" {
-				c.Stat("C03: the same scenario re-posted with a tighter limit, summary kept")
-				for _, r := range s.rows[half:] {
-					in.do("getvalid " + esHx(r.label))
-				}
-				for _, r := range s.rows[:half] {
-					in.do("getvalid " + esHx(r.label))
-				}
+			if in.do("relimit "+floatBits(tighter)+strings.TrimPrefix(g.scenarioLineOf("rescenario"), "rescenario")) != "ok" {
+				break
+			}
+			prev = tighter
+			c.Stat("C03: the same scenario re-posted with a tighter limit, summary kept")
+			for _, r := range s.rows[half:] {
+				in.do("getvalid " + esHx(r.label))
+			}
+			for _, r := range s.rows[:half] {
+				in.do("getvalid " + esHx(r.label))
 			}
 		}
 	}
